@@ -48,6 +48,9 @@ pub enum Op {
     Pin(u32),
     Unpin(u32),
     Probe,
+    /// let the policy process every buffered message, then check the tight
+    /// bound (single-threaded runs)
+    Settle,
 }
 
 #[derive(Clone, Debug, Serialize, Deserialize)]
@@ -85,7 +88,13 @@ pub fn generate(seed: u64, thorough: bool) -> Scenario {
                     13 | 14 => Op::Remove(mine(&mut r)),
                     15 | 16 => Op::Pin(mine(&mut r)),
                     17 | 18 => Op::Unpin(mine(&mut r)),
-                    _ => Op::Probe,
+                    _ => {
+                        if r.chance(1, 6) {
+                            Op::Settle
+                        } else {
+                            Op::Probe
+                        }
+                    }
                 })
                 .collect()
         })
@@ -253,6 +262,44 @@ pub fn run(sc: &Scenario, replay: Option<Vec<String>>) -> Outcome {
                             }
                         }
                     }
+                    Op::Settle => {
+                        if !single {
+                            continue;
+                        }
+                        // Every buffered message is processed once the write
+                        // buffer exceeds its batch size; un-pin notifications
+                        // for a key that is not tracked are no-ops for the
+                        // policy. Poll mode trims the pinned region up to the
+                        // first entry that is still pinned, once per pass.
+                        let pinned_now = state
+                            .lock()
+                            .values()
+                            .filter(|s| s.present.is_some() && s.cell.as_ref().is_some_and(|c| c.pinned.load(Ordering::SeqCst)))
+                            .count() as u64;
+                        let rounds = if notify { 1 } else { pinned_now + 1 };
+                        for _ in 0..rounds {
+                            for _ in 0..34 {
+                                lfu.unpin(u32::MAX);
+                            }
+                        }
+                        let mut resident = 0u64;
+                        for k in 0..universe {
+                            if lfu.entry(k, |e| matches!(e, Entry::Occupied(_))) {
+                                resident += 1;
+                            }
+                        }
+                        bump("settles");
+                        // window + main <= capacity + 1 (rounding of the
+                        // region sizes); the pinned region holds only entries
+                        // that are pinned now; +1
+                        let bound = capacity as u64 + pinned_now + 2;
+                        if resident > bound {
+                            fail(
+                                "bound_exceeded",
+                                format!("after the policy processed every message: {resident} resident entries with capacity {capacity} and {pinned_now} pinned (allowed {bound})"),
+                            );
+                        }
+                    }
                     Op::Probe => {
                         if !single {
                             continue;
@@ -309,6 +356,60 @@ pub fn run(sc: &Scenario, replay: Option<Vec<String>>) -> Outcome {
     }));
     if fin.is_err() {
         out.fail("panic", "panic inside the cache during the final reads".into());
+    }
+    // final (2): nothing is leaked. Un-pin everything (with notification), let
+    // the policy process every message, fill the cache with fresh un-pinned
+    // keys and settle again: window + main are full, the pinned region is
+    // empty, so at most capacity + 1 entries may be resident.
+    let fin2 = std::panic::catch_unwind(std::panic::AssertUnwindSafe(|| {
+        qbice_storage::verif::set_thread_slot(0);
+        let settle = || {
+            for _ in 0..34 {
+                lfu.unpin(u32::MAX);
+            }
+        };
+        {
+            let st = state.lock();
+            for (k, ks) in st.iter() {
+                if let Some(c) = &ks.cell {
+                    if c.pinned.swap(false, Ordering::SeqCst) && sc.notify {
+                        lfu.unpin(*k);
+                    }
+                }
+            }
+        }
+        settle();
+        settle();
+        let fresh = sc.universe + 10;
+        let n_fresh = sc.capacity as u32 + 40;
+        for k in fresh..fresh + n_fresh {
+            lfu.entry(k, |e| {
+                if let Entry::Vacant(vac) = e {
+                    vac.insert(Arc::new(Cell { val: AtomicU64::new(0), pinned: AtomicBool::new(false) }));
+                }
+            });
+        }
+        settle();
+        settle();
+        let mut resident = 0u64;
+        for k in 0..fresh + n_fresh {
+            if lfu.entry(k, |e| matches!(e, Entry::Occupied(_))) {
+                resident += 1;
+            }
+        }
+        let bound = sc.capacity as u64 + 1;
+        if resident > bound && viol.lock().is_none() {
+            *viol.lock() = Some((
+                "bound_exceeded".into(),
+                format!(
+                    "at the end, with nothing pinned, every message processed and {n_fresh} fresh keys inserted: {resident} resident entries with capacity {} (allowed {bound}); entries the policy lost track of are never evicted",
+                    sc.capacity
+                ),
+            ));
+        }
+    }));
+    if fin2.is_err() {
+        out.fail("panic", "panic inside the cache during the final fill".into());
     }
     if let Some((c, m)) = viol.lock().clone() {
         out.fail(&c, m);
